@@ -32,6 +32,14 @@ static void check(int k, uint32_t v) {
         case 0: NI.LinkSpeed = v; break; case 1: NI.MediumType = v; break; case 2: NI.flags = v; break;
         case 3: NI.macAddress[(v >> 8) % 6] = (uint8_t)v; if (v >> 16) for (int i = 0; i < 6; i++) if (i != (int)((v >> 8) % 6)) NI.macAddress[i] = 0xff; break;
         case 4: NI.MTU = v; break; case 5: NI.ifType = v; break;
+        case 6: {      /* joint grid: the five attribute words together, 6 boundary values each (v = base-6 digits) */
+            const uint32_t med[6] = {0, IFM_FDX, 0xFFFFFFFFu, ~(uint32_t)IFM_FDX, IFM_FDX | 0x20, 0x80000000u};
+            const uint32_t flg[6] = {0, IFF_LOOPBACK, IFF_UP | IFF_RUNNING, 0xFFFFFFFFu, ~(uint32_t)IFF_LOOPBACK, IFF_LOOPBACK | IFF_UP | IFF_RUNNING};
+            const uint32_t spd[6] = {0, 99, 100, 1000000000u, 0xFFFFFFFFu, 54000000u};
+            const uint32_t mtu6[6] = {576, 1500, 9216, 0, 65535, 0xFFFFFFFFu};
+            const uint32_t ift[6] = {6, 71, 24, 0, 0xFFFFFFFFu, 1};
+            NI.MediumType = med[v % 6]; NI.flags = flg[(v / 6) % 6]; NI.LinkSpeed = spd[(v / 36) % 6]; NI.MTU = mtu6[(v / 216) % 6]; NI.ifType = ift[(v / 1296) % 6];
+            break; }
     }
     evals++;
     uint32_t sp = 0; size_t mtu = 0; uint32_t ift = 0; ethernet_address_t mac; memset(&mac, 0, sizeof mac);
@@ -70,8 +78,9 @@ int main(int argc, char **argv) {
             for (int i = 0; i < 625; i++) check(k, ((uint32_t)gb[i % 5] << 24) | ((uint32_t)gb[(i / 5) % 5] << 16) | ((uint32_t)gb[(i / 25) % 5] << 8) | gb[(i / 125) % 5]);
             for (int b = 0; b < 32; b++) { check(k, 1u << b); check(k, ~(1u << b)); }
         }
+        for (uint32_t v = 0; v < 7776; v++) check(6, v);
     }
-    vf_sample("os/linux/lltd_port.c alone: LinkSpeed, MediumType, flags: every value in [0x%02lx000000,0x%02lx000000); MAC per byte; MTU/ifType grid", A.a, A.b);
+    vf_sample("os/linux/lltd_port.c alone: LinkSpeed, MediumType, flags: every value in [0x%02lx000000,0x%02lx000000); MAC per byte; MTU/ifType grid; joint grid of 6^5 (MediumType, flags, LinkSpeed, MTU, ifType) tuples", A.a, A.b);
     R.evaluations = evals; R.exhaustive = 1; R.wall_s = vf_now_s() - t0;
     vf_write_results();
     return 0;
